@@ -18,6 +18,7 @@ import (
 	"bytes"
 	"encoding/base64"
 	"encoding/binary"
+	"errors"
 	"io"
 	"net"
 	"net/netip"
@@ -587,6 +588,9 @@ type RDPCorrInfo struct {
 }
 
 func (i *RDPCorrInfo) FromBytes(src []byte) error {
+	if len(src) != int(RDPCorrInfoBytesTotal) {
+		return ErrIncorrectSourceBytesTotal
+	}
 	return binary.Read(bytes.NewBuffer(src), RDPCorrInfoBytesOrder, i)
 }
 
@@ -604,6 +608,9 @@ type RDPNegReq struct {
 }
 
 func (r *RDPNegReq) FromBytes(src []byte) error {
+	if len(src) != int(RDPNegReqBytesTotal) {
+		return ErrIncorrectSourceBytesTotal
+	}
 	return binary.Read(bytes.NewBuffer(src), RDPNegReqBytesOrder, r)
 }
 
@@ -693,6 +700,9 @@ type TPKTHeader struct {
 }
 
 func (h *TPKTHeader) FromBytes(src []byte) error {
+	if len(src) != int(TPKTHeaderBytesTotal) {
+		return ErrIncorrectSourceBytesTotal
+	}
 	return binary.Read(bytes.NewBuffer(src), TPKTHeaderBytesOrder, h)
 }
 
@@ -711,6 +721,9 @@ type X224Crq struct {
 }
 
 func (x *X224Crq) FromBytes(src []byte) error {
+	if len(src) != int(X224CrqBytesTotal) {
+		return ErrIncorrectSourceBytesTotal
+	}
 	return binary.Read(bytes.NewBuffer(src), X224CrqBytesOrder, x)
 }
 
@@ -806,6 +819,10 @@ const (
 	RDPConnReqBytesMax = TPKTHeaderBytesTotal + uint16(X224CrqLengthMax) + 1 // 1 byte for X224Crq.Length
 	RDPConnReqBytesMin = TPKTHeaderBytesTotal + X224CrqBytesTotal
 )
+
+// ErrIncorrectSourceBytesTotal is returned by the fixed-size FromBytes parsers
+// when the source is not exactly as long as the structure.
+var ErrIncorrectSourceBytesTotal = errors.New("incorrect number of source bytes")
 
 // Variables specific to RDP Connection Request. Packet structure is described in the comments below.
 var (
